@@ -7,6 +7,7 @@ interval; Result/Option/ControlFlow wrappers of an integer carry the payload's i
 """
 import re
 from facts import callee, callee_decl, op_place, op_local
+import flow
 
 INT_TY = {"u8": (0, 2**8 - 1), "u16": (0, 2**16 - 1), "u32": (0, 2**32 - 1), "u64": (0, 2**64 - 1), "u128": (0, 2**128 - 1),
           "usize": (0, 2**64 - 1), "i8": (-2**7, 2**7 - 1), "i16": (-2**15, 2**15 - 1), "i32": (-2**31, 2**31 - 1), "i64": (-2**63, 2**63 - 1),
@@ -602,6 +603,7 @@ class Analysis:
                 ok = True
                 why += " with lhs >= rhs established"
             self.record(bb, kind, why, ok, ta or tb, why, t["span"])
+            self.sinks[(bb, kind)].ops = (flow.expr_of(self.body, t["ops"][0], bb), flow.expr_of(self.body, t["ops"][1], bb))
         elif kind in ("DivisionByZero", "RemainderByZero"):
             # the assert's operand is the dividend; the divisor is what the condition `Eq(divisor, 0)` tests
             cl = op_local(t["cond"])
